@@ -117,7 +117,10 @@ func (f *Formatter) Format(vcl *ast.VCL) io.Reader {
 	}
 	buf.WriteString("\n")
 
-	return bytes.NewReader(buf.Bytes())
+	// Empty lines at the head of file are meaningless, and they disappear on the next formatting.
+	// Note that the pooled buffer will be reused so the result must be copied.
+	out := append([]byte{}, bytes.TrimLeft(buf.Bytes(), "\n")...)
+	return bytes.NewReader(out)
 }
 
 // Calculate and crate ident strings from config (shorthand, without passing config)
